@@ -399,6 +399,33 @@ func c05BlameSite2(c *c05ctx, pr *Protocol, rd *Round, m string, top, g *ssa.Fun
 			}
 		}
 	}
+	// a verdict received from ONE channel that several per-peer goroutines send on arrives in completion
+	// order: pairing it with the receiving loop's position names whoever is next in line, not the
+	// peer whose check failed (per-peer channels chs[j], or culprits carried inside the error, are fine)
+	for v := range w.SeenSet() {
+		rcv, ok := v.(*ssa.UnOp)
+		if !ok || rcv.Op != token.ARROW {
+			continue
+		}
+		mk := core.ChanMake(rcv.X)
+		if mk == nil || len(enclosingLoops(mk)) > 0 {
+			continue // unknown, or one channel per peer
+		}
+		perPeerSenders := false
+		for _, snd := range core.SendsOn(core.Outermost(mk.Parent()), mk) {
+			if snd.Parent() != mk.Parent() && len(enclosingLoops(snd)) > 0 {
+				perPeerSenders = true
+			}
+		}
+		if !perPeerSenders {
+			continue
+		}
+		for _, k := range K {
+			if k.loop != nil {
+				bad += fmt.Sprintf("the failing verdict is received from the single channel made at %s, on which every per-peer goroutine sends (completion order), but the error names the receiving loop's current position: an honest peer is blamed for another's failure; ", c.pos(mk))
+			}
+		}
+	}
 	for _, k := range K {
 		switch {
 		case k.origin == "recorded":
